@@ -1,6 +1,14 @@
 HOOK_COMMITS = []
 NOT_APPLICABLE = {}
 CHECKS = {
+ "C01": dict(
+   text="Traversal.tla is the documented step-by-step semantics (typing, every documented step, the open choices of limit/skip/range/distinct as origin blocks). TLC enumerates every program over the step alphabet to a length bound on a 7-graph family containing every shape the property names (quick: ~240k states; thorough adds longer random programs) and checks type-soundness invariants of the oracle; every state is replayed through graph.Compiler().Compile + pipeline.Run on Badger-backed kvgraph and the returned multiset must be admissible for the state.",
+   design_ref="DESIGN.md section 4 C01", technique="TLA+ reference semantics enumerated by TLC (BFS + simulation), replay of every state on the real engine",
+   note="Bounded: programs of at most 4 statements exhaustively (8 randomly), graphs of at most 3 vertices/4 edges; steps/arguments the documentation leaves undefined are outside the alphabet (listed in the evidence assumptions)."),
+ "C02": dict(
+   text="Same Traversal.tla state space, with an alphabet emphasising statements that read data of earlier steps or marks and equivalent spellings of id/label filters. Every state is executed by the production compiler on a backend wrapper that honours the do-not-load hint, by the production compiler on kvgraph and by the literal pipeline (no optimizer, all steps loaded); all three must be admissible results of the specification, hence equal to one another up to the choices the property leaves open.",
+   design_ref="DESIGN.md section 4 C02", technique="TLA+ reference semantics enumerated by TLC, three-way replay (optimized+no-load backend, optimized, literal) of every state",
+   note="The hint-honouring backend is a decorator in the harness over kvgraph (strips data when load=false, as Mongo/SQL/Grids do); bounded as C01."),
  "C08": dict(
    text="Has.tla is the documented meaning of the twelve has() operators and and/or/not; TLC checks the Boolean laws on it and enumerates the complete grid (operators x 16 element values x 25 arguments, all nestings to depth 1 (quick) / 2 (thorough)); every enumerated expression is replayed on the real evaluator and on V().has() through the production pipeline and the kept sets compared document by document. Exhaustive over the finite grid, which contains every value kind and boundary the property names.",
    design_ref="DESIGN.md section 4 C08", technique="TLA+ oracle spec enumerated by TLC, replay of every state on the real code",
